@@ -1,7 +1,7 @@
 package trie
 
-// C13 (iteration) — the real nodeIterator / Iterator over an in-memory trie built from
-// symbolic keys returns exactly the surviving pairs, each once, in ascending key order
+// C13 (iteration) — the real nodeIterator / Iterator over a trie built from symbolic
+// keys (fully loaded, reopened, or with the root itself unloaded) returns exactly the surviving pairs, each once, in ascending key order
 // whenever no key is a prefix of another.
 
 import (
@@ -16,9 +16,11 @@ import (
 //verif:replace $M/trie.newHasher zzC13pNewHasher
 //verif:noop $M/trie.returnHasherToPool
 
+//verif:replace (*$M/trie.Trie).resolveHash zzC13Resolve
 func zzH_C13_iterate() {
 	ops := zzverif.Bound("iterOps", 3, 4)
 	zzC13pNodes = nil
+	zzC13Store, zzC13Next = map[byte]node{}, 0
 	t := &Trie{db: new(Database)}
 	var model []zzC13KV
 	lens := 1 + zzverif.Choose("prefixKeys", 2)
@@ -47,6 +49,16 @@ func zzH_C13_iterate() {
 		if last && e.v != nil {
 			live = append(live, e)
 		}
+	}
+	// how much of the trie is loaded: everything; only the root (after Commit + New); or
+	// nothing, the root itself a hash reference (Commit unloads a clean, aged root)
+	switch zzverif.Choose("loaded", 3) {
+	case 1:
+		t.root = zzC13Hashify(t.root, true)
+		zzverif.Reach("reopened")
+	case 2:
+		t.root = zzC13Hashify(t.root, false)
+		zzverif.Reach("root-unloaded")
 	}
 	it := NewIterator(t.NodeIterator(nil))
 	var got []zzC13KV
